@@ -369,7 +369,7 @@ Section KnnBounded.
     (forall p q, p < n -> q < n -> w p q = w' p q) ->
     create_arcs ltb zero top thr one k n w g = create_arcs ltb zero top thr one k n w' g.
   Proof.
-    intros Hw. unfold create_arcs.
+    intros Hw. unfold create_arcs, create_arcs_acc.
     rewrite (fold_left_ext_in (arcs_node ltb zero top k n w) (arcs_node ltb zero top k n w')); [reflexivity|].
     intros [[g0 maxd] ns0] i Hi. apply in_seq in Hi. unfold arcs_node.
     rewrite (knn_scan_ext_bounded k n (w i) (w' i) (Some i) ns0); [reflexivity|].
